@@ -3,6 +3,7 @@ import Labella.Driver.TextCmd
 import Labella.Driver.CalCmd
 import Labella.Driver.ScaleCmd
 import Labella.Driver.QpCmd
+import Labella.Driver.RenderCmd
 /-! Line-protocol driver: one case per line in, one verdict line out.  A line that cannot be parsed is
 answered `bad-line` (an infrastructure error for the harness, never a default verdict). -/
 open Labella.Driver
@@ -28,6 +29,10 @@ def dispatch (line : String) : String :=
     | "lnice" :: rest => lniceCmd rest
     | "lhist" :: rest => lhistCmd rest
     | "qp" :: rest => qpCmd rest
+    | "geom" :: rest => geomCmd rest
+    | "pic" :: rest => picCmd rest
+    | "tfmt" :: rest => tfmtCmd rest
+    | "size" :: rest => sizeCmd rest
     | _ => none
   r.getD "bad-line"
 
